@@ -5,7 +5,7 @@
    (Python's re / str.lower on the concrete text).  Model/Peg.v interprets the table.
    All statements below are for EVERY table, text, oracle, fuel and both memoization settings. *)
 From TxV Require Import Core.Base Model.PegSyntax Model.Peg Model.Build Model.KwDefs Gen.SrcKw Model.Kw
-     Proofs.PegCongr Proofs.KwProofs Proofs.PegInv Proofs.KwCheckProofs Proofs.KwBuild Proofs.KwModel Proofs.KwWitness Proofs.KwStatements.
+     Proofs.PegCongr Proofs.KwProofs Proofs.PegInv Proofs.KwCheckProofs Proofs.KwBuild Proofs.KwModel Proofs.KwModel2 Proofs.KwWitness Proofs.KwStatements.
 
 (* (1) What visit_str_match / visit_re_match of the CURRENT source construct under ignore_case=True:
    every string literal (plain or keyword-like under autokwd) and every user regex gets the flag.
@@ -88,6 +88,23 @@ Theorem C20_model_structure : forall lower g cfg (O : list N -> nat -> nat -> op
   vbrel lower (build g mm s grp auto false r) (build g mm s' grp' auto false r).
 Proof. exact icase_model_structure. Qed.
 Print Assumptions C20_model_structure.
+
+(* (5'') The same for any use_regexp_group setting: the value of a regex terminal with exactly one group is the
+   slice of group(1), read from the group oracle; group spans are positions, so the oracle is the same for both
+   texts, and group(1) of a base-type match (BOOL) must not have been re-cased either. *)
+Theorem C20_model_structure_grp : forall lower g cfg (O : list N -> nat -> nat -> option nat) memo fuel s s' mm grp grp' auto ug r,
+  all_str_icase g = true ->
+  (forall nid nd o, get_node g nid = Some nd -> kind_oid (n_kind nd) = Some o -> case_blind lower O o) ->
+  case_variant lower s s' ->
+  Forall2 (char_ok (ws_universe g cfg)) s s' ->
+  run g cfg (O s) memo fuel s = Parsed r ->
+  base_matches_unchanged g s s' r ->
+  (forall o p, grp' o p = grp o p) ->
+  base_groups_unchanged g grp s s' r ->
+  run g cfg (O s') memo fuel s' = Parsed r /\
+  vbrel lower (build g mm s grp auto ug r) (build g mm s' grp' auto ug r).
+Proof. exact icase_model_structure_grp. Qed.
+Print Assumptions C20_model_structure_grp.
 
 Example C20_model_structure_nonvacuous :
   exists r v,
